@@ -99,7 +99,7 @@ REPLAYERS = {"limit": replay_limit}
 
 
 def run_weights(chk):
-    """FFNS vs FFN0 through the real Combiner with symbolic electroweak parameters and Q2: for every heavy-quark channel family (quark-initiated incl. the
+    """FFNS vs FFN0 (and the FONLL legs FONLL-FFNS vs FONLL-FFN0) through the real Combiner with symbolic electroweak parameters and Q2: for every heavy-quark channel family (quark-initiated incl. the
     'missing' term, gluon, singlet, intrinsic) the SET of parton-weight vectors of the massive kernels equals the set carried by the asymptotic kernels that
     replace them (a limit can only hold channel by channel if the couplings agree); decided parton by parton by z3 for all parameter values."""
     import z3 as _z3
@@ -110,7 +110,7 @@ def run_weights(chk):
         cname = "weights:" + ":".join(str(c) for c in cell)
         with Ctx(chk.seed) as ctx, cm.fixed_nf(), cm.generic_drop_empty(), stubs.cf_stubs():
             def body(cell=cell):
-                return weight_forms(ctx, cell, "FFNS"), weight_forms(ctx, cell, "FFN0")
+                return weight_forms(ctx, cell, SCHEMES[cell[6]][0]), weight_forms(ctx, cell, SCHEMES[cell[6]][1])
 
             ex = explore.Explorer(ctx, max_paths=8, timeout_ms=3000)
             paths = ex.run(body)
@@ -170,16 +170,17 @@ def family(cls):
     return n
 
 
-WEIGHT_CELLS = [(kind, flav, proc, pid, nf, pto) for kind in ("F2", "FL", "F3", "g1") for flav in ("total", "light", "charm", "bottom")
+WEIGHT_CELLS = [(kind, flav, proc, pid, nf, pto, pair) for pair in ("FFN", "FONLL") for kind in ("F2", "FL", "F3", "g1") for flav in ("total", "light", "charm", "bottom")
                 for proc, pid in (("EM", 11), ("NC", 11), ("NC", -12), ("CC", 12), ("CC", -11)) for nf in (3, 4) for pto in (1, 2)
                 if not (proc == "EM" and kind == "F3") and not (proc == "CC" and kind == "g1") and not (flav == "charm" and nf == 4)]
+SCHEMES = {"FFN": ("FFNS", "FFN0"), "FONLL": ("FONLL-FFNS", "FONLL-FFN0")}  # the massive scheme and the asymptotic one that replaces it
 
 
 def weight_forms(ctx_or_vals, cell, scheme):
     """{(family, mass key): [weights dict, ...]} of the heavy-quark kernels (massive: heavy/intrinsic modules; asymptotic: asy modules) the real Combiner collects"""
     import yadism.coefficient_functions as cf
 
-    kind, flav, proc, pid, nf, pto = cell
+    kind, flav, proc, pid, nf, pto, pair = cell
     if hasattr(ctx_or_vals, "var"):
         P = cm.ew_params(ctx_or_vals)
         Q2 = ctx_or_vals.var("Q2", 0, None, wlo=30, whi=90)
@@ -187,7 +188,8 @@ def weight_forms(ctx_or_vals, cell, scheme):
         P = cm.ew_params(values=ctx_or_vals)
         Q2 = ctx_or_vals.get("Q2", 50.0)
     cc = cm.make_coupling(P, proc, pid)
-    zm = tuple(i < nf - 3 for i in range(3))
+    # fixed-flavour schemes: the first NfFF-3 heavy quarks are massless, the others massive; FONLL legs: only flavour NfFF+1 is massive
+    zm = tuple(i < nf - 3 for i in range(3)) if pair == "FFN" else tuple(i != nf - 3 for i in range(3))
     cfg = cm.make_configs(cc, pto=pto, pto_evol=pto, scheme=scheme, nf_ff=nf, ZMq=zm, m2hq=cm.M2HQ, threshold=nf)
     ks = cf.Combiner(cm.make_esf(cfg, f"{kind}_{flav}", 0.1, Q2)).collect_elems()
     out = {}
@@ -222,7 +224,7 @@ def mass_index(c):
 def replay_weights(args):
     cell = tuple(args["cell"])
     with cm.fixed_nf():
-        a, b = weight_forms(dict(args["params"]), cell, "FFNS"), weight_forms(dict(args["params"]), cell, "FFN0")
+        a, b = weight_forms(dict(args["params"]), cell, SCHEMES[cell[6]][0]), weight_forms(dict(args["params"]), cell, SCHEMES[cell[6]][1])
     fam = args["family"]
     fa = [w for (f, m), ws in a.items() if f == fam for w in ws]
     fb = [w for (f, m), ws in b.items() if f == fam for w in ws]
